@@ -10,7 +10,7 @@ ENGINES = {
              'right after the last arrival, or the latter with all bulk requests held in flight until Shutdown has returned), run against the real Elasticsearch node (Setup, ProcessAsync, Shutdown) over a scripted bulk-service '
              'factory; focus C15: produce requests and error '
              'reports (selector 15: empty / binary / large payloads, topic override present or absent, configured topic present or '
-             'absent, plain / wrapped / structured / pointer errors, marshalable and unmarshalable event payloads, both report '
+             'absent, plain / wrapped / structured / pointer errors, marshalable and unmarshalable event payloads (chan in a map, func, anonymous struct type with tags, NaN/Inf, Marshalers failing with plain texts and with texts that need JSON escaping), both report '
              'forms; single calls and sequences of 1..6 calls of both kinds on ONE errorkafkaproducer instance whose records are read from the '
              'channel only after the last call, record k judged against call k); a case is non-trivial when the model run hit a branch tag >= 10; distinct = distinct input trees',
         tags={'1': 'wrong-typed payload', '2': 'no topic from either place', '3': 'outside the C15 quantifier (nil error / unmarshalable errorinfo)',
